@@ -850,6 +850,8 @@ class Runner:
     def impl(self, c):
         bound = step_bound(c)
         fds = c.get('fds', [])
+        if fds is not None:
+            fds = list(fds)         # a fresh list per decode: the decoder must not be able to grow the case itself
         if c['op'] == 'u':
             fn = lambda: self.marshal.unmarshal(c['sig'], c['data'], c['off'], c['le'], fds)
         else:
@@ -923,6 +925,9 @@ class Runner:
         if mline is None:
             return
         m = mline.split()
+        if len(m) < 8:
+            ctx.disagree(stream, cj, mline, obs, detail='the driver could not read the case')
+            return
         if c['op'] == 'u':
             mst, mcons, msteps, mdepth, mframes, msize, mwork, mchars = [m[0]] + [int(x) for x in m[1:8]]
         else:
@@ -1109,7 +1114,7 @@ def run(ctx):
             R.add('unmarshal-valid-truncated-mutated', dict(base, data=d))
         for d in length_lies(data, le, rng, None if thorough else 4):
             R.add('lying-lengths', dict(base, data=d))
-        fields = length_fields(marshal, data, lambda: marshal.unmarshal(sig, data, off, le, fds))
+        fields = length_fields(marshal, data, lambda: marshal.unmarshal(sig, data, off, le, None if fds is None else list(fds)))
         ctx.stat('length-fields', len(fields))
         for d in field_lies(data, le, fields):
             R.add('lying-lengths', dict(base, data=d))
@@ -1132,7 +1137,7 @@ def run(ctx):
             R.add('message-truncated-mutated', {'op': 'p', 'data': d, 'fds': fds})
         for d in length_lies(raw, raw[:1] == b'l', rng, None if thorough else 4):
             R.add('lying-lengths', {'op': 'p', 'data': d, 'fds': fds})
-        fields = length_fields(marshal, raw, lambda: message.parseMessage(raw, fds))
+        fields = length_fields(marshal, raw, lambda: message.parseMessage(raw, None if fds is None else list(fds)))
         ctx.stat('length-fields', len(fields))
         for d in field_lies(raw, raw[:1] == b'l', fields, extra=[(4, 4)]):      # + the body length of the fixed header
             R.add('lying-lengths', {'op': 'p', 'data': d, 'fds': fds})
